@@ -261,6 +261,40 @@ def roundtrip_workload(ops, rng, n):
         w.observe()
 
 
+def codec_workload(ops, rng, n):
+    """C11 for application/x-www-form-urlencoded, exhaustive per byte: the serializer's escape decision for every
+    byte value (as a name and inside a value), the parser's decoding of every %XX escape in both hex cases, and of
+    every MALFORMED escape ('%' followed by each pair over an alphabet of hex / non-hex / delimiter bytes: literal
+    text, and what follows is still decoded normally)"""
+    w = PW(ops)
+    for lo in range(0, 256, 8):
+        w.reset()
+        w.init(b'')
+        for b in range(lo, lo + 8):
+            w.append(bytes([b]), b'x' + bytes([b]) + b'y')
+        w.observe()
+    for lo in range(0, 256, 16):
+        w.reset()
+        w.init('&'.join('k%02x=%%%02X&%%%02x=v' % (b, b, b) for b in range(lo, lo + 16)))
+        w.observe()
+    alpha = [b'', b'0', b'4', b'a', b'F', b'g', b'%', b'+', b'=', b'&', b' ', b'\xc3']
+    k = 0
+    for c1 in alpha:
+        for c2 in alpha:
+            if k % 6 == 0:
+                w.reset()
+            k += 1
+            w.init(b'k=x%' + c1 + c2 + b'y&%' + c1 + c2 + b'=v')
+            w.observe()
+    for s in [b'%4%41', b'%%41', b'100%+sure', b'+%2B+', b'%2b%2B', b'a%00b', b'%', b'%%', b'%%%', b'a%', b'a%4', b'=%', b'%=%', b'%41%', b'%4g%41+%41',
+              b'caf%C3%A9+latte', b'%C3+%A9', b'%+41', b'%2', b'%2&%3', b'a=%&b=%2&c=%2x']:
+        w.reset()
+        w.init(s)
+        w.observe()
+        w.reinit(b'x=' + s)
+        w.observe()
+
+
 def mixed_workload(ops, rng, n):
     """one ops list for one record+validate run (the run has a large fixed cost: 16 JVM starts):
     n histories, n/2 sort-centred histories, n round-trip lists"""
